@@ -1,0 +1,629 @@
+/*
+ * Verification facade.  Compiled only with the `verif` cargo feature; add-only.
+ *
+ * Lets an out-of-crate harness drive the crate-private protocol engine, codec, validators and
+ * client state machine with a virtual clock, and observe what they do through neutral
+ * (public-field) representations.  Nothing in here is used by the crate itself.
+ */
+
+#![allow(missing_docs)]
+#![allow(dead_code)]
+
+use crate::mqtt::*;
+
+/// Neutral value used to flatten packets into (field name, value) lists
+#[derive(Clone, Debug, PartialEq, Eq)]
+pub enum Val {
+    None,
+    U(u64),
+    Flag(bool),
+    S(String),
+    Bytes(Vec<u8>),
+    List(Vec<Val>),
+    Pair(String, String),
+}
+
+pub type Flat = Vec<(&'static str, Val)>;
+
+fn ou<T: Into<u64> + Copy>(v: &Option<T>) -> Val { match v { Some(x) => Val::U((*x).into()), None => Val::None } }
+fn ob(v: &Option<bool>) -> Val { match v { Some(x) => Val::Flag(*x), None => Val::None } }
+fn os(v: &Option<String>) -> Val { match v { Some(x) => Val::S(x.clone()), None => Val::None } }
+fn obytes(v: &Option<Vec<u8>>) -> Val { match v { Some(x) => Val::Bytes(x.clone()), None => Val::None } }
+fn oprops(v: &Option<Vec<UserProperty>>) -> Val {
+    match v {
+        Some(props) => Val::List(props.iter().map(|p| Val::Pair(p.name.clone(), p.value.clone())).collect()),
+        None => Val::None
+    }
+}
+
+fn flatten_publish(p: &PublishPacket) -> Flat {
+    vec![
+        ("packet_id", Val::U(p.packet_id as u64)),
+        ("topic", Val::S(p.topic.clone())),
+        ("qos", Val::U(p.qos as u64)),
+        ("duplicate", Val::Flag(p.duplicate)),
+        ("retain", Val::Flag(p.retain)),
+        ("payload", obytes(&p.payload)),
+        ("payload_format", match p.payload_format { Some(f) => Val::U(f as u64), None => Val::None }),
+        ("message_expiry_interval_seconds", ou(&p.message_expiry_interval_seconds)),
+        ("topic_alias", ou(&p.topic_alias)),
+        ("response_topic", os(&p.response_topic)),
+        ("correlation_data", obytes(&p.correlation_data)),
+        ("subscription_identifiers", match &p.subscription_identifiers { Some(ids) => Val::List(ids.iter().map(|i| Val::U(*i as u64)).collect()), None => Val::None }),
+        ("content_type", os(&p.content_type)),
+        ("user_properties", oprops(&p.user_properties)),
+    ]
+}
+
+pub(crate) fn flatten_packet(packet: &MqttPacket) -> (u8, Flat) {
+    match packet {
+        MqttPacket::Connect(p) => (1, vec![
+            ("keep_alive_interval_seconds", Val::U(p.keep_alive_interval_seconds as u64)),
+            ("clean_start", Val::Flag(p.clean_start)),
+            ("client_id", os(&p.client_id)),
+            ("username", os(&p.username)),
+            ("password", obytes(&p.password)),
+            ("session_expiry_interval_seconds", ou(&p.session_expiry_interval_seconds)),
+            ("request_response_information", ob(&p.request_response_information)),
+            ("request_problem_information", ob(&p.request_problem_information)),
+            ("receive_maximum", ou(&p.receive_maximum)),
+            ("topic_alias_maximum", ou(&p.topic_alias_maximum)),
+            ("maximum_packet_size_bytes", ou(&p.maximum_packet_size_bytes)),
+            ("authentication_method", os(&p.authentication_method)),
+            ("authentication_data", obytes(&p.authentication_data)),
+            ("will_delay_interval_seconds", ou(&p.will_delay_interval_seconds)),
+            ("will", match &p.will { Some(w) => Val::List(flatten_publish(w).into_iter().map(|(n, v)| Val::List(vec![Val::S(n.to_string()), v])).collect()), None => Val::None }),
+            ("user_properties", oprops(&p.user_properties)),
+        ]),
+        MqttPacket::Connack(p) => (2, vec![
+            ("session_present", Val::Flag(p.session_present)),
+            ("reason_code", Val::U(p.reason_code as u64)),
+            ("session_expiry_interval", ou(&p.session_expiry_interval)),
+            ("receive_maximum", ou(&p.receive_maximum)),
+            ("maximum_qos", match p.maximum_qos { Some(q) => Val::U(q as u64), None => Val::None }),
+            ("retain_available", ob(&p.retain_available)),
+            ("maximum_packet_size", ou(&p.maximum_packet_size)),
+            ("assigned_client_identifier", os(&p.assigned_client_identifier)),
+            ("topic_alias_maximum", ou(&p.topic_alias_maximum)),
+            ("reason_string", os(&p.reason_string)),
+            ("user_properties", oprops(&p.user_properties)),
+            ("wildcard_subscriptions_available", ob(&p.wildcard_subscriptions_available)),
+            ("subscription_identifiers_available", ob(&p.subscription_identifiers_available)),
+            ("shared_subscriptions_available", ob(&p.shared_subscriptions_available)),
+            ("server_keep_alive", ou(&p.server_keep_alive)),
+            ("response_information", os(&p.response_information)),
+            ("server_reference", os(&p.server_reference)),
+            ("authentication_method", os(&p.authentication_method)),
+            ("authentication_data", obytes(&p.authentication_data)),
+        ]),
+        MqttPacket::Publish(p) => (3, flatten_publish(p)),
+        MqttPacket::Puback(p) => (4, vec![
+            ("packet_id", Val::U(p.packet_id as u64)), ("reason_code", Val::U(p.reason_code as u64)),
+            ("reason_string", os(&p.reason_string)), ("user_properties", oprops(&p.user_properties)),
+        ]),
+        MqttPacket::Pubrec(p) => (5, vec![
+            ("packet_id", Val::U(p.packet_id as u64)), ("reason_code", Val::U(p.reason_code as u64)),
+            ("reason_string", os(&p.reason_string)), ("user_properties", oprops(&p.user_properties)),
+        ]),
+        MqttPacket::Pubrel(p) => (6, vec![
+            ("packet_id", Val::U(p.packet_id as u64)), ("reason_code", Val::U(p.reason_code as u64)),
+            ("reason_string", os(&p.reason_string)), ("user_properties", oprops(&p.user_properties)),
+        ]),
+        MqttPacket::Pubcomp(p) => (7, vec![
+            ("packet_id", Val::U(p.packet_id as u64)), ("reason_code", Val::U(p.reason_code as u64)),
+            ("reason_string", os(&p.reason_string)), ("user_properties", oprops(&p.user_properties)),
+        ]),
+        MqttPacket::Subscribe(p) => (8, vec![
+            ("packet_id", Val::U(p.packet_id as u64)),
+            ("subscriptions", Val::List(p.subscriptions.iter().map(|s| Val::List(vec![
+                Val::S(s.topic_filter.clone()), Val::U(s.qos as u64), Val::Flag(s.no_local),
+                Val::Flag(s.retain_as_published), Val::U(s.retain_handling_type as u64)])).collect())),
+            ("subscription_identifier", ou(&p.subscription_identifier)),
+            ("user_properties", oprops(&p.user_properties)),
+        ]),
+        MqttPacket::Suback(p) => (9, vec![
+            ("packet_id", Val::U(p.packet_id as u64)),
+            ("reason_string", os(&p.reason_string)), ("user_properties", oprops(&p.user_properties)),
+            ("reason_codes", Val::List(p.reason_codes.iter().map(|c| Val::U(*c as u64)).collect())),
+        ]),
+        MqttPacket::Unsubscribe(p) => (10, vec![
+            ("packet_id", Val::U(p.packet_id as u64)),
+            ("topic_filters", Val::List(p.topic_filters.iter().map(|f| Val::S(f.clone())).collect())),
+            ("user_properties", oprops(&p.user_properties)),
+        ]),
+        MqttPacket::Unsuback(p) => (11, vec![
+            ("packet_id", Val::U(p.packet_id as u64)),
+            ("reason_string", os(&p.reason_string)), ("user_properties", oprops(&p.user_properties)),
+            ("reason_codes", Val::List(p.reason_codes.iter().map(|c| Val::U(*c as u64)).collect())),
+        ]),
+        MqttPacket::Pingreq(_) => (12, vec![]),
+        MqttPacket::Pingresp(_) => (13, vec![]),
+        MqttPacket::Disconnect(p) => (14, vec![
+            ("reason_code", Val::U(p.reason_code as u64)),
+            ("session_expiry_interval_seconds", ou(&p.session_expiry_interval_seconds)),
+            ("reason_string", os(&p.reason_string)), ("user_properties", oprops(&p.user_properties)),
+            ("server_reference", os(&p.server_reference)),
+        ]),
+        MqttPacket::Auth(p) => (15, vec![
+            ("reason_code", Val::U(p.reason_code as u64)),
+            ("authentication_method", os(&p.authentication_method)),
+            ("authentication_data", obytes(&p.authentication_data)),
+            ("reason_string", os(&p.reason_string)), ("user_properties", oprops(&p.user_properties)),
+        ]),
+    }
+}
+
+/// Drives the crate-private ProtocolState with a virtual clock
+pub mod engine {
+    use super::*;
+    use crate::alias::OutboundAliasResolverFactoryFn;
+    use crate::client::*;
+    use crate::client::config::*;
+    use crate::error::{GneissError, GneissResult};
+    use crate::protocol::*;
+    use std::collections::VecDeque;
+    use std::sync::{Arc, Mutex};
+    use std::time::{Duration, Instant};
+
+    pub struct EngineConfig {
+        pub connect: ConnectOptions,
+        pub policy: OfflineQueuePolicy,
+        pub ping_timeout_ms: u64,
+        pub resolver: Option<OutboundAliasResolverFactoryFn>,
+        pub mode: ProtocolMode,
+        pub drain: PostReconnectQueueDrainPolicy,
+        pub max_interrupted_retries: Option<u32>,
+    }
+
+    /// How a user operation was resolved; acks are reported as (packet type, flattened packet)
+    #[derive(Debug)]
+    pub enum Outcome {
+        Qos0,
+        Ack(u8, Flat),
+        Err(GneissError),
+    }
+
+    #[derive(Debug)]
+    pub struct Completion {
+        pub key: u64,
+        pub outcome: Outcome,
+    }
+
+    #[derive(Clone, Debug, Default, PartialEq, Eq)]
+    pub struct OpView {
+        pub id: u64,
+        pub ptype: u8,
+        pub qos: u8,
+        pub dup: bool,
+        pub packet_id: Option<u16>,
+        pub has_pubrel: bool,
+        pub user: bool,
+        pub slow_start: u32,
+        pub interruptions: u32,
+    }
+
+    #[derive(Clone, Debug, Default, PartialEq, Eq)]
+    pub struct Snapshot {
+        pub state: &'static str,
+        pub pending_write_completion: bool,
+        pub operations: Vec<OpView>,
+        pub user_queue: Vec<u64>,
+        pub resubmit_queue: Vec<u64>,
+        pub high_priority_queue: Vec<u64>,
+        pub current_operation: Option<u64>,
+        pub qos2_incoming: Vec<u16>,
+        pub allocated_packet_ids: Vec<(u16, u64)>,
+        pub pending_publish: Vec<(u16, u64)>,
+        pub pending_non_publish: Vec<(u16, u64)>,
+        pub pending_write_completion_operations: Vec<u64>,
+        pub ack_timeouts: Vec<(u64, u64)>,
+        pub next_operation_id: u64,
+        pub next_packet_id: u16,
+        pub has_connected_successfully: bool,
+        pub next_ping_ms: Option<u64>,
+        pub ping_timeout_ms: Option<u64>,
+        pub connack_timeout_ms: Option<u64>,
+        pub slow_start_ack_count: u32,
+    }
+
+    pub struct Engine {
+        state: ProtocolState,
+        base: Instant,
+        completions: Arc<Mutex<Vec<Completion>>>,
+        packet_events: VecDeque<PacketEvent>,
+    }
+
+    fn state_name(state: ProtocolStateType) -> &'static str {
+        match state {
+            ProtocolStateType::Disconnected => "Disconnected",
+            ProtocolStateType::PendingConnack => "PendingConnack",
+            ProtocolStateType::Connected => "Connected",
+            ProtocolStateType::PendingDisconnect => "PendingDisconnect",
+            ProtocolStateType::Halted => "Halted",
+        }
+    }
+
+    impl Engine {
+        pub fn new(config: EngineConfig) -> Engine {
+            let base = Instant::now();
+            let state_config = ProtocolStateConfig {
+                connect_options: config.connect,
+                base_timestamp: base,
+                offline_queue_policy: config.policy,
+                ping_timeout: Duration::from_millis(config.ping_timeout_ms),
+                outbound_alias_resolver: config.resolver.map(|f| f()),
+                protocol_mode: config.mode,
+                post_reconnect_queue_drain_policy: config.drain,
+                max_interrupted_retries: config.max_interrupted_retries,
+            };
+
+            Engine {
+                state: ProtocolState::new(state_config),
+                base,
+                completions: Arc::new(Mutex::new(Vec::new())),
+                packet_events: VecDeque::new(),
+            }
+        }
+
+        fn at(&self, t_ms: u64) -> Instant { self.base + Duration::from_millis(t_ms) }
+
+        fn ms(&self, t: &Instant) -> u64 {
+            if *t >= self.base { (*t - self.base).as_millis() as u64 } else { 0 }
+        }
+
+        /// Submits a publish; `key` is echoed in the completion.  Returns the engine's operation id.
+        pub fn publish(&mut self, t_ms: u64, key: u64, mut packet: PublishPacket, topic_alias: Option<u16>, ack_timeout_ms: Option<u64>) -> u64 {
+            if topic_alias.is_some() {
+                packet.topic_alias = topic_alias;
+            }
+            let sink = self.completions.clone();
+            let handler : ResponseHandler<PublishResult> = Box::new(move |result| {
+                let outcome = match result {
+                    Ok(PublishResponse::Qos0) => Outcome::Qos0,
+                    Ok(PublishResponse::Qos1(puback)) => { let (t, f) = flatten_packet(&MqttPacket::Puback(puback)); Outcome::Ack(t, f) }
+                    Ok(PublishResponse::Qos2(Qos2Response::Pubrec(pubrec))) => { let (t, f) = flatten_packet(&MqttPacket::Pubrec(pubrec)); Outcome::Ack(t, f) }
+                    Ok(PublishResponse::Qos2(Qos2Response::Pubcomp(pubcomp))) => { let (t, f) = flatten_packet(&MqttPacket::Pubcomp(pubcomp)); Outcome::Ack(t, f) }
+                    Err(error) => Outcome::Err(error),
+                };
+                sink.lock().unwrap().push(Completion { key, outcome });
+                Ok(())
+            });
+            let mut options = PublishOptions::default();
+            options.ack_timeout = ack_timeout_ms.map(Duration::from_millis);
+            let id = self.state.next_operation_id;
+            self.state.handle_user_event(UserEventContext {
+                event: UserEvent::Publish(Box::new(MqttPacket::Publish(packet)), PublishOptionsInternal { options, response_handler: Some(handler) }),
+                current_time: self.at(t_ms),
+            });
+            id
+        }
+
+        pub fn subscribe(&mut self, t_ms: u64, key: u64, packet: SubscribePacket, ack_timeout_ms: Option<u64>) -> u64 {
+            let sink = self.completions.clone();
+            let handler : ResponseHandler<SubscribeResult> = Box::new(move |result| {
+                let outcome = match result {
+                    Ok(suback) => { let (t, f) = flatten_packet(&MqttPacket::Suback(suback)); Outcome::Ack(t, f) }
+                    Err(error) => Outcome::Err(error),
+                };
+                sink.lock().unwrap().push(Completion { key, outcome });
+                Ok(())
+            });
+            let mut options = SubscribeOptions::default();
+            options.ack_timeout = ack_timeout_ms.map(Duration::from_millis);
+            let id = self.state.next_operation_id;
+            self.state.handle_user_event(UserEventContext {
+                event: UserEvent::Subscribe(Box::new(MqttPacket::Subscribe(packet)), SubscribeOptionsInternal { options, response_handler: Some(handler) }),
+                current_time: self.at(t_ms),
+            });
+            id
+        }
+
+        pub fn unsubscribe(&mut self, t_ms: u64, key: u64, packet: UnsubscribePacket, ack_timeout_ms: Option<u64>) -> u64 {
+            let sink = self.completions.clone();
+            let handler : ResponseHandler<UnsubscribeResult> = Box::new(move |result| {
+                let outcome = match result {
+                    Ok(unsuback) => { let (t, f) = flatten_packet(&MqttPacket::Unsuback(unsuback)); Outcome::Ack(t, f) }
+                    Err(error) => Outcome::Err(error),
+                };
+                sink.lock().unwrap().push(Completion { key, outcome });
+                Ok(())
+            });
+            let mut options = UnsubscribeOptions::default();
+            options.ack_timeout = ack_timeout_ms.map(Duration::from_millis);
+            let id = self.state.next_operation_id;
+            self.state.handle_user_event(UserEventContext {
+                event: UserEvent::Unsubscribe(Box::new(MqttPacket::Unsubscribe(packet)), UnsubscribeOptionsInternal { options, response_handler: Some(handler) }),
+                current_time: self.at(t_ms),
+            });
+            id
+        }
+
+        pub fn disconnect(&mut self, t_ms: u64, packet: DisconnectPacket) {
+            self.state.handle_user_event(UserEventContext {
+                event: UserEvent::Disconnect(Box::new(MqttPacket::Disconnect(packet))),
+                current_time: self.at(t_ms),
+            });
+        }
+
+        fn network_event(&mut self, t_ms: u64, event: NetworkEvent) -> GneissResult<()> {
+            let current_time = self.at(t_ms);
+            let mut context = NetworkEventContext { event, current_time, packet_events: &mut self.packet_events };
+            self.state.handle_network_event(&mut context)
+        }
+
+        pub fn connection_opened(&mut self, t_ms: u64, deadline_ms: u64) -> GneissResult<()> {
+            let establishment_timeout = self.at(deadline_ms);
+            self.network_event(t_ms, NetworkEvent::ConnectionOpened(ConnectionOpenedContext { establishment_timeout }))
+        }
+
+        pub fn connection_closed(&mut self, t_ms: u64) -> GneissResult<()> {
+            self.network_event(t_ms, NetworkEvent::ConnectionClosed)
+        }
+
+        pub fn write_completion(&mut self, t_ms: u64) -> GneissResult<()> {
+            self.network_event(t_ms, NetworkEvent::WriteCompletion)
+        }
+
+        /// Feeds bytes; returns the result and the packet events surfaced by this call (in order)
+        pub fn incoming(&mut self, t_ms: u64, bytes: &[u8]) -> (GneissResult<()>, Vec<(u8, Flat)>) {
+            let result = self.network_event(t_ms, NetworkEvent::IncomingData(bytes));
+            (result, self.drain_surfaced())
+        }
+
+        /// Packet events pushed by any entry point since the last drain
+        pub fn drain_surfaced(&mut self) -> Vec<(u8, Flat)> {
+            let mut surfaced = Vec::new();
+            while let Some(event) = self.packet_events.pop_front() {
+                match event {
+                    PacketEvent::Connack(p) => surfaced.push(flatten_packet(&MqttPacket::Connack(p))),
+                    PacketEvent::Publish(p) => surfaced.push(flatten_packet(&MqttPacket::Publish(p))),
+                    PacketEvent::Disconnect(p) => surfaced.push(flatten_packet(&MqttPacket::Disconnect(p))),
+                }
+            }
+            surfaced
+        }
+
+        pub fn service(&mut self, t_ms: u64, out: &mut Vec<u8>) -> GneissResult<()> {
+            let mut context = ServiceContext { to_socket: out, current_time: self.at(t_ms) };
+            self.state.service(&mut context)
+        }
+
+        pub fn next_service_ms(&mut self, t_ms: u64) -> Option<u64> {
+            let now = self.at(t_ms);
+            self.state.get_next_service_timepoint(&now).map(|t| self.ms(&t))
+        }
+
+        pub fn reset(&mut self, t_ms: u64) {
+            let now = self.at(t_ms);
+            self.state.reset(&now);
+        }
+
+        pub fn drain_completions(&mut self) -> Vec<Completion> {
+            std::mem::take(&mut *self.completions.lock().unwrap())
+        }
+
+        pub fn state(&self) -> &'static str { state_name(self.state.state) }
+
+        pub fn settings(&self) -> Option<NegotiatedSettings> { self.state.current_settings.clone() }
+
+        pub fn set_next_packet_id(&mut self, id: u16) { self.state.next_packet_id = id; }
+
+        pub fn snapshot(&self) -> Snapshot {
+            let s = &self.state;
+            let mut operations : Vec<OpView> = s.operations.iter().map(|(id, op)| {
+                let (ptype, _) = (crate::mqtt::utils::mqtt_packet_to_packet_type(&op.packet), ());
+                let (qos, dup) = match &*op.packet { MqttPacket::Publish(p) => (p.qos as u8, p.duplicate), _ => (0, false) };
+                OpView {
+                    id: *id,
+                    ptype: packet_type_number(ptype),
+                    qos, dup,
+                    packet_id: op.verif_packet_id(),
+                    has_pubrel: op.qos2_pubrel.is_some(),
+                    user: op.verif_is_user(),
+                    slow_start: op.slow_start_ack_value,
+                    interruptions: op.interruption_count,
+                }
+            }).collect();
+            operations.sort_by_key(|o| o.id);
+            let sorted_map = |m: &std::collections::HashMap<u16, u64>| { let mut v : Vec<(u16, u64)> = m.iter().map(|(k, v)| (*k, *v)).collect(); v.sort(); v };
+            let mut qos2_incoming : Vec<u16> = s.qos2_incomplete_incoming_publishes.iter().copied().collect();
+            qos2_incoming.sort();
+            let mut ack_timeouts : Vec<(u64, u64)> = s.operation_ack_timeouts.iter().map(|r| (r.0.verif_id(), self.ms(&r.0.verif_timeout()))).collect();
+            ack_timeouts.sort();
+            Snapshot {
+                state: state_name(s.state),
+                pending_write_completion: s.pending_write_completion,
+                operations,
+                user_queue: s.user_operation_queue.iter().copied().collect(),
+                resubmit_queue: s.resubmit_operation_queue.iter().copied().collect(),
+                high_priority_queue: s.high_priority_operation_queue.iter().copied().collect(),
+                current_operation: s.current_operation,
+                qos2_incoming,
+                allocated_packet_ids: sorted_map(&s.allocated_packet_ids),
+                pending_publish: sorted_map(&s.pending_publish_operations),
+                pending_non_publish: sorted_map(&s.pending_non_publish_operations),
+                pending_write_completion_operations: s.pending_write_completion_operations.iter().copied().collect(),
+                ack_timeouts,
+                next_operation_id: s.next_operation_id,
+                next_packet_id: s.next_packet_id,
+                has_connected_successfully: s.has_connected_successfully,
+                next_ping_ms: s.next_ping_timepoint.map(|t| self.ms(&t)),
+                ping_timeout_ms: s.ping_timeout_timepoint.map(|t| self.ms(&t)),
+                connack_timeout_ms: s.connack_timeout_timepoint.map(|t| self.ms(&t)),
+                slow_start_ack_count: s.slow_start_ack_count,
+            }
+        }
+    }
+
+    pub(crate) fn packet_type_number(packet_type: PacketType) -> u8 {
+        match packet_type {
+            PacketType::Connect => 1, PacketType::Connack => 2, PacketType::Publish => 3, PacketType::Puback => 4,
+            PacketType::Pubrec => 5, PacketType::Pubrel => 6, PacketType::Pubcomp => 7, PacketType::Subscribe => 8,
+            PacketType::Suback => 9, PacketType::Unsubscribe => 10, PacketType::Unsuback => 11, PacketType::Pingreq => 12,
+            PacketType::Pingresp => 13, PacketType::Disconnect => 14, PacketType::Auth => 15,
+        }
+    }
+}
+
+/// The crate's encoder and decoder behind neutral types
+pub mod codec {
+    use super::*;
+    use crate::alias::OutboundAliasResolution;
+    use crate::client::config::ConnectOptions;
+    use crate::decode::*;
+    use crate::encode::*;
+    use crate::error::GneissError;
+    use std::collections::VecDeque;
+
+    /// A client-to-server packet as the client would build it
+    pub enum OutPacket {
+        /// CONNECT from connect options; `fallback_client_id` is what the engine substitutes when
+        /// the options carry no client id (a previously server-assigned one)
+        Connect { options: ConnectOptions, connected_previously: bool, fallback_client_id: Option<String> },
+        Publish { packet: PublishPacket, packet_id: u16, duplicate: bool, topic_alias: Option<u16> },
+        Subscribe { packet: SubscribePacket, packet_id: u16 },
+        Unsubscribe { packet: UnsubscribePacket, packet_id: u16 },
+        Disconnect(DisconnectPacket),
+        Puback(u16),
+        Pubrec(u16),
+        Pubrel(u16),
+        Pubcomp(u16),
+        Pingreq,
+    }
+
+    fn to_mqtt_packet(packet: &OutPacket) -> MqttPacket {
+        match packet {
+            OutPacket::Connect { options, connected_previously, fallback_client_id } => {
+                let mut connect = options.to_connect_packet(*connected_previously);
+                if connect.client_id.is_none() { connect.client_id = fallback_client_id.clone(); }
+                MqttPacket::Connect(connect)
+            }
+            OutPacket::Publish { packet, packet_id, duplicate, topic_alias } => {
+                let mut publish = packet.clone();
+                publish.packet_id = *packet_id;
+                publish.duplicate = *duplicate;
+                if topic_alias.is_some() { publish.topic_alias = *topic_alias; }
+                MqttPacket::Publish(publish)
+            }
+            OutPacket::Subscribe { packet, packet_id } => { let mut s = packet.clone(); s.packet_id = *packet_id; MqttPacket::Subscribe(s) }
+            OutPacket::Unsubscribe { packet, packet_id } => { let mut u = packet.clone(); u.packet_id = *packet_id; MqttPacket::Unsubscribe(u) }
+            OutPacket::Disconnect(d) => MqttPacket::Disconnect(d.clone()),
+            OutPacket::Puback(id) => MqttPacket::Puback(PubackPacket { packet_id: *id, ..Default::default() }),
+            OutPacket::Pubrec(id) => MqttPacket::Pubrec(PubrecPacket { packet_id: *id, ..Default::default() }),
+            OutPacket::Pubrel(id) => MqttPacket::Pubrel(PubrelPacket { packet_id: *id, ..Default::default() }),
+            OutPacket::Pubcomp(id) => MqttPacket::Pubcomp(PubcompPacket { packet_id: *id, ..Default::default() }),
+            OutPacket::Pingreq => MqttPacket::Pingreq(PingreqPacket {}),
+        }
+    }
+
+    fn version(mqtt5: bool) -> ProtocolVersion { if mqtt5 { ProtocolVersion::Mqtt5 } else { ProtocolVersion::Mqtt311 } }
+
+    /// Encodes one packet through the resumable encoder.  Each entry of `buffers` is
+    /// (bytes already in the buffer, buffer capacity); the last entry repeats until the packet
+    /// is complete.  Returns the bytes appended by each encode call.
+    pub fn encode(packet: &OutPacket, mqtt5: bool, skip_topic: bool, alias: Option<u16>, buffers: &[(usize, usize)]) -> Result<Vec<Vec<u8>>, GneissError> {
+        let mqtt_packet = to_mqtt_packet(packet);
+        let context = EncodingContext {
+            outbound_alias_resolution: OutboundAliasResolution { skip_topic, alias },
+            protocol_version: version(mqtt5),
+        };
+        let mut encoder = Encoder::new();
+        encoder.reset(&mqtt_packet, &context)?;
+
+        let mut chunks = Vec::new();
+        let mut index = 0;
+        loop {
+            let (prefill, capacity) = buffers[usize::min(index, buffers.len() - 1)];
+            index += 1;
+            let mut dest : Vec<u8> = Vec::with_capacity(capacity);
+            dest.resize(usize::min(prefill, capacity), 0);
+            let before = dest.len();
+            let result = encoder.encode(&mqtt_packet, &mut dest)?;
+            chunks.push(dest[before..].to_vec());
+            if result == EncodeResult::Complete { return Ok(chunks); }
+            if index > 10_000_000 { return Err(GneissError::new_other_error("verif: encoder made no progress")); }
+        }
+    }
+
+    /// Flattened form of what the client would encode (for comparing with a reference decode)
+    pub fn flatten_out(packet: &OutPacket) -> (u8, Flat) { flatten_packet(&to_mqtt_packet(packet)) }
+
+    pub struct DecodeOutcome {
+        pub packets: Vec<(u8, Flat)>,
+        /// packets decoded after each chunk (cumulative count)
+        pub packets_after_chunk: Vec<usize>,
+        pub error: Option<GneissError>,
+        /// index of the chunk whose processing returned the error
+        pub error_chunk: Option<usize>,
+    }
+
+    /// Feeds `chunks` in order through one incremental decoder
+    pub fn decode(mqtt5: bool, maximum_packet_size: u32, chunks: &[&[u8]]) -> DecodeOutcome {
+        let mut decoder = Decoder::new();
+        decoder.reset_for_new_connection();
+        let mut outcome = DecodeOutcome { packets: Vec::new(), packets_after_chunk: Vec::new(), error: None, error_chunk: None };
+        for (index, chunk) in chunks.iter().enumerate() {
+            let mut decoded = VecDeque::new();
+            let result = {
+                let mut context = DecodingContext { maximum_packet_size, protocol_version: version(mqtt5), decoded_packets: &mut decoded };
+                decoder.decode_bytes(chunk, &mut context)
+            };
+            for packet in decoded.iter() { outcome.packets.push(flatten_packet(packet)); }
+            outcome.packets_after_chunk.push(outcome.packets.len());
+            if let Err(error) = result {
+                outcome.error = Some(error);
+                outcome.error_chunk = Some(index);
+                break;
+            }
+        }
+        outcome
+    }
+}
+
+/// The two outbound validators
+pub mod validate {
+    use super::*;
+    use crate::alias::OutboundAliasResolution;
+    use crate::client::NegotiatedSettings;
+    use crate::client::config::ConnectOptions;
+    use crate::error::GneissResult;
+    use crate::validate::*;
+
+    pub enum UserPacket {
+        Publish(PublishPacket),
+        Subscribe(SubscribePacket),
+        Unsubscribe(UnsubscribePacket),
+        Disconnect(DisconnectPacket),
+    }
+
+    fn to_mqtt_packet(packet: &UserPacket, packet_id: u16) -> MqttPacket {
+        match packet {
+            UserPacket::Publish(p) => { let mut p = p.clone(); if p.qos != QualityOfService::AtMostOnce { p.packet_id = packet_id; } MqttPacket::Publish(p) }
+            UserPacket::Subscribe(p) => { let mut p = p.clone(); p.packet_id = packet_id; MqttPacket::Subscribe(p) }
+            UserPacket::Unsubscribe(p) => { let mut p = p.clone(); p.packet_id = packet_id; MqttPacket::Unsubscribe(p) }
+            UserPacket::Disconnect(p) => MqttPacket::Disconnect(p.clone()),
+        }
+    }
+
+    /// What the public submit entry points run before handing the packet to the event loop
+    pub fn outbound(packet: &UserPacket) -> GneissResult<()> {
+        validate_packet_outbound(&to_mqtt_packet(packet, 0))
+    }
+
+    /// The last-chance check run when an operation is dequeued (packet id already bound)
+    pub fn outbound_internal(packet: &UserPacket, packet_id: u16, settings: Option<&NegotiatedSettings>, connect: Option<&ConnectOptions>, skip_topic: bool, alias: Option<u16>) -> GneissResult<()> {
+        let context = OutboundValidationContext {
+            negotiated_settings: settings,
+            connect_options: connect,
+            outbound_alias_resolution: Some(OutboundAliasResolution { skip_topic, alias }),
+        };
+        validate_packet_outbound_internal(&to_mqtt_packet(packet, packet_id), &context)
+    }
+
+    pub fn is_valid_topic(topic: &str) -> bool { crate::validate::is_valid_topic(topic) }
+
+    /// (is_valid, is_shared, has_wildcard)
+    pub fn topic_filter_properties(filter: &str) -> (bool, bool, bool) {
+        crate::validate::verif_topic_filter_properties(filter)
+    }
+}
